@@ -291,35 +291,39 @@ theorem DirInv_step (rs0 : List ReadEv) (l : Limiter) (closed : Bool) (opp : Nat
         · simp only [hblk, if_true]
           exact ⟨consumed, hsplit, htot, hcnt, hbatch, hpre, hnone, heof⟩
         · simp only [hblk, if_false]
-          obtain ⟨k, hk, hd, ht, hcc, hfull⟩ := iter_spec l ev d.writes d.st
-          have hsplit' : rs0 = (consumed ++ [ev]) ++ rs := by rw [hsplit, hr]; simp
-          have hall : allData (consumed ++ [ev]) = allData consumed ++ ev.data := by
-            rw [allData_append]; simp [allData]
-          have hlenk : (List.take k ev.data).length = k := by simp [List.length_take]; omega
-          cases hst : (iter l ev d.writes d.st).stop with
-          | some s =>
-            simp only
-            refine ⟨consumed ++ [ev], hsplit', ?_, ?_, ?_, ?_, ?_, ?_⟩
-            · simp [flush, hd, ht, htot, hlenk]
-            · simp only [flush, hd, List.length_append, hlenk]; omega
-            · simp [flush]
-            · simp only [flush, hd, hall, hdel]
-              exact (List.prefix_append_right_inj _).mpr (List.take_prefix k ev.data)
-            · intro h; cases h
-            · intro h
-              injection h with h
-              subst h
-              exact absurd hst (iter_stop_ne_eof l ev d.writes d.st)
-          | none =>
-            simp only
-            have hkfull := hfull hst
-            refine ⟨consumed ++ [ev], hsplit', ?_, ?_, ?_, ?_, ?_, ?_⟩
-            · rw [ht, hd, htot, List.length_append, hlenk]
-            · rw [hcc, hd, List.length_append, hlenk]; omega
-            · intro h; cases h
-            · rw [hd, hall, hdel, hkfull, List.take_length]; exact List.prefix_refl _
-            · intro _; rw [hd, hall, hdel, hkfull, List.take_length]
-            · intro h; cases h
+          by_cases hbp : (!ev.data.isEmpty && (nextWrite d.writes ev.data.length).1.block) = true
+          · simp only [hbp, if_true]
+            exact ⟨consumed, hsplit, htot, hcnt, hbatch, hpre, hnone, heof⟩
+          · simp only [hbp, Bool.false_eq_true, if_false]
+            obtain ⟨k, hk, hd, ht, hcc, hfull⟩ := iter_spec l ev d.writes d.st
+            have hsplit' : rs0 = (consumed ++ [ev]) ++ rs := by rw [hsplit, hr]; simp
+            have hall : allData (consumed ++ [ev]) = allData consumed ++ ev.data := by
+              rw [allData_append]; simp [allData]
+            have hlenk : (List.take k ev.data).length = k := by simp [List.length_take]; omega
+            cases hst : (iter l ev d.writes d.st).stop with
+            | some s =>
+              simp only
+              refine ⟨consumed ++ [ev], hsplit', ?_, ?_, ?_, ?_, ?_, ?_⟩
+              · simp [flush, hd, ht, htot, hlenk]
+              · simp only [flush, hd, List.length_append, hlenk]; omega
+              · simp [flush]
+              · simp only [flush, hd, hall, hdel]
+                exact (List.prefix_append_right_inj _).mpr (List.take_prefix k ev.data)
+              · intro h; cases h
+              · intro h
+                injection h with h
+                subst h
+                exact absurd hst (iter_stop_ne_eof l ev d.writes d.st)
+            | none =>
+              simp only
+              have hkfull := hfull hst
+              refine ⟨consumed ++ [ev], hsplit', ?_, ?_, ?_, ?_, ?_, ?_⟩
+              · rw [ht, hd, htot, List.length_append, hlenk]
+              · rw [hcc, hd, List.length_append, hlenk]; omega
+              · intro h; cases h
+              · rw [hd, hall, hdel, hkfull, List.take_length]; exact List.prefix_refl _
+              · intro _; rw [hd, hall, hdel, hkfull, List.take_length]
+              · intro h; cases h
 
 theorem DirInv_prefix {rs0 : List ReadEv} {d : Dir} (h : DirInv rs0 d) : d.st.delivered <+: allData rs0 := by
   obtain ⟨consumed, hsplit, _, _, _, hpre, _, _⟩ := h
